@@ -59,11 +59,18 @@ func c01Corpus() []c01issCase {
 		// the leader fails in the issuer, one waiter is cancelled, the last one issues
 		{Threads: []c01issThread{th("renew", c01nmCanon), {Prog: "renew", Name: c01nmCanon, Async: true}, th("renew", c01nmCanon)}, Seeds: []c01issSeed{{c01nmCanon, "due"}}, Policy: "seq",
 			Pause: map[string]string{"0": "IssueEnd:"}, Faults: map[string]int{"0:IssueEnd:": c01fErr}, CancelWait: map[string]int{"1": 2}, Class: "generic"},
+		// the real FileStorage Locker behind the gate: its lock file name is Safe(lock key), so upper- and
+		// lower-case callers of ObtainCertSync share one lock there (they do not on a raw-key Locker)
+		{Threads: []c01issThread{th("obtain", c01nmUpper), th("obtain", c01nmCanon)}, Policy: "seq", Pause: map[string]string{"0": "IssueEnd:"}, Backend: "file", Class: "generic"},
+		{Threads: []c01issThread{th("manage", c01nmCanon), th("manage", c01nmCanon)}, Seeds: []c01issSeed{{c01nmCanon, "due"}}, Policy: "rr", Backend: "file", Class: "generic"},
+		{Threads: []c01issThread{th("obtain", c01nmCanon), th("manage", c01nmCanon)}, Policy: "seq", Pause: map[string]string{"0": "IssueEnd:"},
+			Faults: map[string]int{"0:IssueEnd:": c01fPanic}, Backend: "file", Class: "generic"},
+		{Threads: []c01issThread{th("obtain", c01nmUni), th("obtain", c01nmPuny)}, Policy: "seq", Pause: map[string]string{"0": "IssueEnd:"}, Backend: "file", Class: "spelling-different-locks"},
 	}
 }
 
 func c01Features(cs c01issCase, o *c01issObs) map[string]any {
-	return map[string]any{"class": cs.Class, "threads": len(cs.Threads), "programs": c01issProgKey(cs), "policy": cs.Policy,
+	return map[string]any{"class": cs.Class, "backend": cs.Backend, "threads": len(cs.Threads), "programs": c01issProgKey(cs), "policy": cs.Policy,
 		"faults": len(cs.Faults), "steps": len(o.Steps), "issues": o.Issues, "overlap": o.Overlap, "save_fault": o.SaveFault}
 }
 
@@ -72,7 +79,7 @@ func c01Emit(w *emit.Writer, cs c01issCase, o *c01issObs) {
 	rec := cs
 	rec.Policy, rec.Script = "script", o.Sched
 	nt := len(cs.Threads) >= 2 && o.Issues >= 1
-	key := fmt.Sprint(c01issProgKey(cs), cs.Seeds, o.Sched, cs.Faults, cs.CancelWait)
+	key := fmt.Sprint(c01issProgKey(cs), cs.Backend, cs.Seeds, o.Sched, cs.Faults, cs.CancelWait)
 	if cs.Class == "generic" {
 		d := c01Features(cs, o)
 		d["clause"] = "all"
@@ -87,6 +94,7 @@ func c01Emit(w *emit.Writer, cs c01issCase, o *c01issObs) {
 		}
 	}
 	w.Hist("class=" + cs.Class)
+	w.Hist("backend=" + map[string]string{"": "memory", "file": "file"}[cs.Backend])
 	w.Hist("programs=" + c01issProgKey(cs))
 	w.Hist(fmt.Sprintf("threads=%d", len(cs.Threads)))
 	w.Hist("policy=" + cs.Policy)
@@ -178,6 +186,10 @@ func c01Random(r *rand.Rand, tier string) c01issCase {
 	// a request is cancelled while it waits for the lock (the holder is alive)
 	if !spelling && r.Intn(5) == 0 {
 		cs.CancelWait = map[string]int{fmt.Sprint(r.Intn(nth)): r.Intn(8)}
+	}
+	// the real FileStorage behind the gate (each hand-over of its lock costs up to 1 s of polling)
+	if r.Intn(map[string]int{"thorough": 30}[tier]+70) == 0 { // quick 1/70, thorough 1/100 of many more
+		cs.Backend = "file"
 	}
 	// Unlock failures leave the lock held by definition (C09's excluded class); not injected here
 	return cs
